@@ -131,7 +131,7 @@ def generate(rng, tier):
         })
     integers = list(integers)
     rng.shuffle(integers)  # the order in which the integer variables are designated carries no meaning
-    return {"c": c, "A": A, "b": b, "integers": integers, "minimize": minimize, "ub": ub, "free_var": free_var, "configs": configs}
+    return {"seq_as": rng.choice(["list", "list", "tuple"]), "c": c, "A": A, "b": b, "integers": integers, "minimize": minimize, "ub": ub, "free_var": free_var, "configs": configs}
 
 
 # ------------------------------------------------------------------------------------------- exact reference
@@ -250,7 +250,8 @@ def run_cfg(case, cfg, ref):
     exceeded = False
     try:
         with seams.install_rng(["solvor.milp", "solvor.lns"], plan), budget.steps(STEP_LIMIT):
-            inp = case.setdefault("_inputs", (list(case["c"]), [list(r) for r in case["A"]], list(case["b"]), list(case["integers"])))
+            seq = tuple if case.get("seq_as") == "tuple" else list  # Sequences: tuples are as legal as lists
+            inp = case.setdefault("_inputs", (seq(case["c"]), seq(seq(r) for r in case["A"]), seq(case["b"]), seq(case["integers"])))
             kw = {"minimize": case["minimize"], "warm_start": warm_start_for(case, cfg, ref), "solution_limit": cfg["solution_limit"],
                   "heuristics": cfg["heuristics"], "lns_iterations": cfg["lns_iterations"], "lns_destroy_frac": cfg["lns_destroy_frac"],
                   "seed": cfg["seed"]}
